@@ -168,6 +168,11 @@ func (cfg *Config) paramExp(pe *syntax.ParamExp) (string, error) {
 			strs = vr.indexedKeys()
 		case pe.Index != nil && vr.Kind == Associative:
 			strs = slices.Sorted(maps.Keys(vr.Map))
+		case pe.Index != nil && vr.Kind == String && (nodeLit(index) == "@" || nodeLit(index) == "*"):
+			// ${!name[@]} on a scalar lists the only key, zero.
+			if vr.IsSet() {
+				strs = append(strs, "0")
+			}
 		case pe.Index != nil && indexAllElements && !vr.IsSet():
 			// ${!name[@]} on an unset variable lists no keys, like an empty array.
 		case !vr.IsSet():
